@@ -72,6 +72,8 @@ fx! {
 	c13q_fix_tup_none: (u8, u16), 4, false, 5; c13q_fix_arr_u8_none: [u8; 4], 8, false, 6;
 	// types that do NOT report a fixed size today: if one ever does, the size must be its encoded length (not its memory size)
 	c13q_fix_arr_duration: [core::time::Duration; 2], 28, false, 30; c13q_fix_box_u32: Box<u32>, 8, false, 6;
+	c13q_fix_res_u32_u16: Result<u32, u16>, 8, false, 7; c13q_fix_arr_res: [Result<u64, bool>; 2], 20, false, 22; c13q_fix_opt_u32: Option<u32>, 8, false, 7; c13q_fix_res_same: Result<u16, u16>, 4, false, 5;
+	c13q_fix_tup_fixed: (u32, u16), 8, false, 8; c13q_fix_arr_tup: [(u16, bool); 2], 8, false, 10; c13q_fix_rc_u16: alloc::rc::Rc<u16>, 4, false, 4; c13q_fix_vec_u16: Vec<u16>, 8, false, 8;
 }
 
 /// "every type MARKED ConstEncodedLen encodes to exactly max_encoded_len()" must also hold for types that should not carry
